@@ -427,6 +427,14 @@ Proof.
     rewrite ?orb_true_r; try reflexivity.
 Qed.
 
+(* the decimal library of the model, as the float library of the specification *)
+Definition model_floatlib : floatlib :=
+  mkFloatLib
+    (fun s => match classify_float s with FIn m e => DIn m e | FInvalid => DInvalid | FOut => DOut end)
+    (fun m1 e1 m2 e2 => let '(m, e) := dec_add m1 e1 m2 e2 in
+                        if dec_in_domain m e then Some (m, e) else None)
+    fmt_dec.
+
 (* ------------------------------------------------------------------ one command on a purged database *)
 (* [d] is the database a command body runs on (already purged at [now]); [V] is its view. *)
 Section Step.
@@ -844,4 +852,189 @@ Section Step.
         start H HV'; try (split; [reflexivity|]); try (split; [auto with c01|]); try (same HV');
         try (apply WR; [exact HV'|discriminate]).
   Qed.
+
+  (* ---------------- INCRBYFLOAT ---------------- *)
+  Lemma follow_hint_shape k b0 t hint r d' V' :
+    (V k = Some (VStr b0, t) \/ (V k = None /\ t = None)) ->
+    follow_hint d k hint = (r, d') -> (forall k', V' k' = view d' now k') ->
+    (any_error r /\ unchanged V V') \/ exists s, r = RBulk s /\ veq V' (upd V k (Some (VStr s, t))).
+  Proof.
+    intros HK. unfold follow_hint. destruct hint; start H HV';
+      try (left; split; [eexists; reflexivity|same HV']).
+    right. exists b. split; [reflexivity|]. post HV'. rewrite ttl_V.
+    destruct HK as [E|(E & ->)]; rewrite E; [|reflexivity].
+    destruct t as [t|]; [rewrite (live_t _ _ _ E)|]; reflexivity.
+  Qed.
+
+  Lemma stored_ok k b0 t s V' :
+    (V k = Some (VStr b0, t) \/ (V k = None /\ t = None)) ->
+    (forall k', V' k' = view (db_set d k (VStr s)) now k') -> veq V' (upd V k (Some (VStr s, t))).
+  Proof.
+    intros HK HV'. post HV'. rewrite ttl_V.
+    destruct HK as [E|(E & ->)]; rewrite E; [|reflexivity].
+    destruct t as [t|]; [rewrite (live_t _ _ _ E)|]; reflexivity.
+  Qed.
+
+  Lemma incrbyfloat_ok c k inc hint r d' V' :
+    exec_incrbyfloat d [c; k; inc] hint = (r, d') -> (forall k', V' k' = view d' now k') ->
+    ref_incrbyfloat (fl_class model_floatlib) (fl_add model_floatlib) (fl_fmt model_floatlib) V k inc r V'.
+  Proof.
+    unfold exec_incrbyfloat, ref_incrbyfloat. cbn [model_floatlib fl_class fl_add fl_fmt].
+    destruct (classify_float inc) as [mi ei| |].
+    - (* increment in the exact domain *)
+      ck k E.
+      + destruct (classify_float b) as [mv ev| |].
+        * destruct (dec_add mv ev mi ei) as [m e]. destruct (dec_in_domain m e).
+          -- start H HV'. split; [reflexivity|]. eapply stored_ok; [left; exact E|exact HV'].
+          -- intros H HV'. eapply follow_hint_shape; [left; exact E|exact H|exact HV'].
+        * start H HV'. split; [auto with c01|same HV'].
+        * intros H HV'. eapply follow_hint_shape; [left; exact E|exact H|exact HV'].
+      + start H HV'; split; [auto with c01|same HV'].
+      + start H HV'; split; [auto with c01|same HV'].
+      + start H HV'; split; [auto with c01|same HV'].
+      + start H HV'; split; [auto with c01|same HV'].
+      + start H HV'; split; [auto with c01|same HV'].
+      + start H HV'. split; [reflexivity|]. eapply (stored_ok k [] None); [right; auto|exact HV'].
+    - start H HV'. split; [auto with c01|same HV'].
+    - (* increment outside the exact domain: the outcome has the prescribed shape *)
+      ck k E.
+      + intros H HV'. eapply follow_hint_shape; [left; exact E|exact H|exact HV'].
+      + destruct hint as [? |e| | | | | |]; try destruct (starts_with (B "WRONGTYPE") e); start H HV'; (split; [eauto with c01|same HV']).
+      + destruct hint as [? |e| | | | | |]; try destruct (starts_with (B "WRONGTYPE") e); start H HV'; (split; [eauto with c01|same HV']).
+      + destruct hint as [? |e| | | | | |]; try destruct (starts_with (B "WRONGTYPE") e); start H HV'; (split; [eauto with c01|same HV']).
+      + destruct hint as [? |e| | | | | |]; try destruct (starts_with (B "WRONGTYPE") e); start H HV'; (split; [eauto with c01|same HV']).
+      + destruct hint as [? |e| | | | | |]; try destruct (starts_with (B "WRONGTYPE") e); start H HV'; (split; [eauto with c01|same HV']).
+      + intros H HV'. eapply (follow_hint_shape k [] None); [right; auto|exact H|exact HV'].
+  Qed.
+
+  Lemma rej_ok : rejected V err_other (view d now).
+  Proof. split; [auto with c01|]. intros k. apply view_same. Qed.
 End Step.
+
+(* ------------------------------------------------------------------ dispatch *)
+Section Dispatch.
+  Variables (d0 : db) (now nowms : Z) (c : bytes) (rest : list bytes) (hint : reply).
+  Let d := purge d0 now.
+  Ltac disp E := intros E; unfold exec, exec_cmd; rewrite E; reflexivity.
+  Lemma exec_get_eq : lower c = B "get" -> exec d0 now nowms (c :: rest) hint = exec_get d (c :: rest).
+  Proof. disp E. Qed.
+  Lemma exec_set_eq : lower c = B "set" -> exec d0 now nowms (c :: rest) hint = exec_set d now (c :: rest).
+  Proof. disp E. Qed.
+  Lemma exec_setnx_eq : lower c = B "setnx" -> exec d0 now nowms (c :: rest) hint = exec_setnx d (c :: rest).
+  Proof. disp E. Qed.
+  Lemma exec_setex_eq : lower c = B "setex" -> exec d0 now nowms (c :: rest) hint = exec_setex d now (c :: rest).
+  Proof. disp E. Qed.
+  Lemma exec_mset_eq : lower c = B "mset" -> exec d0 now nowms (c :: rest) hint = exec_mset d (c :: rest).
+  Proof. disp E. Qed.
+  Lemma exec_mget_eq : lower c = B "mget" -> exec d0 now nowms (c :: rest) hint = exec_mget d (c :: rest).
+  Proof. disp E. Qed.
+  Lemma exec_append_eq : lower c = B "append" -> exec d0 now nowms (c :: rest) hint = exec_append d (c :: rest).
+  Proof. disp E. Qed.
+  Lemma exec_strlen_eq : lower c = B "strlen" -> exec d0 now nowms (c :: rest) hint = exec_strlen d (c :: rest).
+  Proof. disp E. Qed.
+  Lemma exec_getrange_eq : lower c = B "getrange" -> exec d0 now nowms (c :: rest) hint = exec_getrange d (c :: rest).
+  Proof. disp E. Qed.
+  Lemma exec_setrange_eq : lower c = B "setrange" -> exec d0 now nowms (c :: rest) hint = exec_setrange d (c :: rest).
+  Proof. disp E. Qed.
+  Lemma exec_incr_eq : lower c = B "incr" -> exec d0 now nowms (c :: rest) hint = exec_incr d (c :: rest).
+  Proof. disp E. Qed.
+  Lemma exec_decr_eq : lower c = B "decr" -> exec d0 now nowms (c :: rest) hint = exec_decr d (c :: rest).
+  Proof. disp E. Qed.
+  Lemma exec_incrby_eq : lower c = B "incrby" -> exec d0 now nowms (c :: rest) hint = exec_incrby d (c :: rest).
+  Proof. disp E. Qed.
+  Lemma exec_decrby_eq : lower c = B "decrby" -> exec d0 now nowms (c :: rest) hint = exec_decrby d (c :: rest).
+  Proof. disp E. Qed.
+  Lemma exec_incrbyfloat_eq : lower c = B "incrbyfloat" ->
+    exec d0 now nowms (c :: rest) hint = exec_incrbyfloat d (c :: rest) hint.
+  Proof. disp E. Qed.
+  Lemma exec_del_eq : lower c = B "del" -> exec d0 now nowms (c :: rest) hint = exec_del d (c :: rest).
+  Proof. disp E. Qed.
+  Lemma exec_exists_eq : lower c = B "exists" -> exec d0 now nowms (c :: rest) hint = exec_exists d (c :: rest).
+  Proof. disp E. Qed.
+  Lemma exec_type_eq : lower c = B "type" -> exec d0 now nowms (c :: rest) hint = exec_type d (c :: rest).
+  Proof. disp E. Qed.
+  Lemma exec_rename_eq : lower c = B "rename" -> exec d0 now nowms (c :: rest) hint = exec_rename d (c :: rest).
+  Proof. disp E. Qed.
+  Lemma exec_keys_eq : lower c = B "keys" -> exec d0 now nowms (c :: rest) hint = exec_keys d (c :: rest).
+  Proof. disp E. Qed.
+  Lemma exec_ping_eq : lower c = B "ping" -> exec d0 now nowms (c :: rest) hint = exec_ping d (c :: rest).
+  Proof. disp E. Qed.
+End Dispatch.
+
+(* ------------------------------------------------------------------ every step satisfies its clause *)
+Theorem strings_step_refines d0 now nowms args hint r d' :
+  db_wf d0 -> exec d0 now nowms args hint = (r, d') ->
+  ref_step atoi64 model_floatlib (view d0 now) now args r (view d' now).
+Proof.
+  intros W0 H.
+  pose proof (db_wf_purge d0 now W0) as W.
+  assert (HV : forall k, raw_view (purge d0 now) k = view d0 now k) by (intros k; apply raw_view_purge; exact W0).
+  pose proof (view_fresh d0 now) as HF.
+  assert (HV' : forall k', view d' now k' = view d' now k') by reflexivity.
+  pose proof (rej_ok (purge d0 now) now (view d0 now) W HV HF) as REJ.
+  unfold ref_step. destruct args as [|c rest]; [exact I|]. cbv zeta.
+  (* one command name: rewrite the dispatch, split on the arity, apply the clause lemma *)
+  Ltac name_case E eqn := unfold is in E; apply bytes_eqb_eq in E;
+    match goal with H : exec _ _ _ _ _ = _ |- _ => rewrite (eqn _ _ _ _ _ _ E) in H end.
+  Ltac rejected_case REJ :=
+    match goal with H : _ = (_, _) |- _ => cbn in H; injection H as <- <-; exact REJ end.
+  destruct (is (lower c) (B "get")) eqn:E1.
+  { name_case E1 exec_get_eq. destruct rest as [|k [|? ?]]; try rejected_case REJ.
+    eapply get_ok; eauto. }
+  destruct (is (lower c) (B "set")) eqn:E2.
+  { name_case E2 exec_set_eq. destruct rest as [|k [|v opts]]; try rejected_case REJ.
+    eapply set_ok; eauto. }
+  destruct (is (lower c) (B "setnx")) eqn:E3.
+  { name_case E3 exec_setnx_eq. destruct rest as [|k [|v [|? ?]]]; try rejected_case REJ.
+    eapply setnx_ok; eauto. }
+  destruct (is (lower c) (B "setex")) eqn:E4.
+  { name_case E4 exec_setex_eq. destruct rest as [|k [|s [|v [|? ?]]]]; try rejected_case REJ.
+    eapply setex_ok; eauto. }
+  destruct (is (lower c) (B "mset")) eqn:E5.
+  { name_case E5 exec_mset_eq. eapply mset_ok; eauto. }
+  destruct (is (lower c) (B "mget")) eqn:E6.
+  { name_case E6 exec_mget_eq. eapply mget_ok; eauto. }
+  destruct (is (lower c) (B "append")) eqn:E7.
+  { name_case E7 exec_append_eq. destruct rest as [|k [|v [|? ?]]]; try rejected_case REJ.
+    eapply append_ok; eauto. }
+  destruct (is (lower c) (B "strlen")) eqn:E8.
+  { name_case E8 exec_strlen_eq. destruct rest as [|k [|? ?]]; try rejected_case REJ.
+    eapply strlen_ok; eauto. }
+  destruct (is (lower c) (B "getrange")) eqn:E9.
+  { name_case E9 exec_getrange_eq. destruct rest as [|k [|s [|e [|? ?]]]]; try rejected_case REJ.
+    eapply getrange_ok; eauto. }
+  destruct (is (lower c) (B "setrange")) eqn:E10.
+  { name_case E10 exec_setrange_eq. destruct rest as [|k [|s [|e [|? ?]]]]; try rejected_case REJ.
+    eapply setrange_ok; eauto. }
+  destruct (is (lower c) (B "incr")) eqn:E11.
+  { name_case E11 exec_incr_eq. destruct rest as [|k [|? ?]]; try rejected_case REJ.
+    eapply incr_ok; eauto. }
+  destruct (is (lower c) (B "decr")) eqn:E12.
+  { name_case E12 exec_decr_eq. destruct rest as [|k [|? ?]]; try rejected_case REJ.
+    eapply incr_ok; eauto. }
+  destruct (is (lower c) (B "incrby")) eqn:E13.
+  { name_case E13 exec_incrby_eq. destruct rest as [|k [|v [|? ?]]]; try rejected_case REJ.
+    eapply incrby_ok; eauto. }
+  destruct (is (lower c) (B "decrby")) eqn:E14.
+  { name_case E14 exec_decrby_eq. destruct rest as [|k [|v [|? ?]]]; try rejected_case REJ.
+    eapply decrby_ok; eauto. }
+  destruct (is (lower c) (B "incrbyfloat")) eqn:E15.
+  { name_case E15 exec_incrbyfloat_eq. destruct rest as [|k [|v [|? ?]]]; try rejected_case REJ.
+    eapply incrbyfloat_ok; eauto. }
+  destruct (is (lower c) (B "del")) eqn:E16.
+  { name_case E16 exec_del_eq. eapply del_ok; eauto. }
+  destruct (is (lower c) (B "exists")) eqn:E17.
+  { name_case E17 exec_exists_eq. eapply exists_ok; eauto. }
+  destruct (is (lower c) (B "type")) eqn:E18.
+  { name_case E18 exec_type_eq. destruct rest as [|k [|? ?]]; try rejected_case REJ.
+    eapply type_ok; eauto. }
+  destruct (is (lower c) (B "rename")) eqn:E19.
+  { name_case E19 exec_rename_eq. destruct rest as [|k [|v [|? ?]]]; try rejected_case REJ.
+    eapply rename_ok; eauto. }
+  destruct (is (lower c) (B "keys")) eqn:E20.
+  { name_case E20 exec_keys_eq. destruct rest as [|k [|? ?]]; try rejected_case REJ.
+    eapply keys_ok; eauto. }
+  destruct (is (lower c) (B "ping")) eqn:E21.
+  { name_case E21 exec_ping_eq. eapply ping_ok; eauto. }
+  exact I.
+Qed.
